@@ -6,6 +6,7 @@ require (
 	github.com/github/git-sizer v0.0.0
 	github.com/github/go-pipe v1.0.2
 	github.com/spf13/pflag v1.0.5
+	verifsched v0.0.0
 )
 
 require github.com/cli/safeexec v1.0.0 // indirect
@@ -13,3 +14,5 @@ require github.com/cli/safeexec v1.0.0 // indirect
 replace github.com/github/git-sizer => /repo
 
 replace github.com/github/go-pipe => ./shimpipe
+
+replace verifsched => ./vsched
